@@ -6,7 +6,7 @@ from __future__ import annotations
 import z3
 
 from .core import CTX
-from .scalar import SReal, SBool
+from .scalar import SReal, SBool, FP_MODE
 
 
 def _eq_point(p, q):
@@ -47,7 +47,13 @@ class UF:
                 break
         if vals is None:
             idx = len(self.table)
-            vals = [SReal(CTX.fresh("%s%d_%d" % (self.name, idx, j), register=self.register)) for j in range(self.k)]
+            if FP_MODE[0]:
+                from .scalar_fp import SFP
+                vals = [SFP(CTX.fp("%s%d_%d" % (self.name, idx, j))) for j in range(self.k)]
+                for v in vals:
+                    CTX.assume(z3.And(z3.Not(z3.fpIsNaN(v.z())), z3.Not(z3.fpIsInf(v.z()))), check=False)
+            else:
+                vals = [SReal(CTX.fresh("%s%d_%d" % (self.name, idx, j), register=self.register)) for j in range(self.k)]
             for (q, v) in self.table:
                 e = _eq_point(point, q)
                 if e is False:
